@@ -89,6 +89,36 @@ def r17a(ck, prog):
                                      "the row-matching order reads %s (name and checksum expected)" % sorted(fields), prog.config)
 
 
+def r17d(ck, prog):
+    """one notion of 'same name': the order that matches rows and the uniqueness check that kalign_msa_compare relies
+    on compare names with the same function over the same span"""
+    used = {}
+    for fname in ("kalign_check_msa", "kalign_sort_msa"):
+        F = prog.fn(fname)
+        fns = [F]
+        for q in F.body.calls("qsort"):
+            for a in q.args:
+                a0 = a.strip(casts=True)
+                if a0.k == "DeclRefExpr" and a0.d.get("dk") == "Fn":
+                    fns.append(prog.fn(a0.d["name"]))
+        for G in fns:
+            for c in G.body.calls("strncmp", "strcmp", "strncasecmp", "strcasecmp", "memcmp"):
+                if any(m.d.get("field") == "name" for a in c.args for m in a.find("MemberExpr")):
+                    span = c.args[2].cv if len(c.args) > 2 else None
+                    used.setdefault((c.callee, span), []).append((G.name, c))
+    ck.inst("R17d", site(prog, prog.fn("kalign_check_msa"), "name comparisons"), "name comparisons used for uniqueness and row matching: %s" % (
+        {"%s/%s" % k: sorted({g for g, _ in v}) for k, v in used.items()}), prog.config)
+    if len(used) > 1:
+        kinds = sorted(used, key=lambda k: -len(used[k]))
+        g, c = used[kinds[-1]][0]
+        ck.violation("R17d", "R17d/%s/name-compare" % g, site(prog, c),
+                     "%s compares names with %s over %s bytes while the other sites use %s over %s: two names can be 'different' for "
+                     "the uniqueness check and 'equal' for the row matching (or vice versa), and tied rows are paired by checksum "
+                     "order" % (g, kinds[-1][0], kinds[-1][1], kinds[0][0], kinds[0][1]), prog.config)
+    if not used:
+        raise AnalysisBroken("R17d slot: no name comparison found in kalign_check_msa / kalign_sort_msa")
+
+
 def counter_classes(prog):
     """cmp_stats field -> 'first' | 'second' | 'match' according to which row parameters the loop that increments it reads"""
     P = prog.fn("compare_pair")
@@ -212,11 +242,13 @@ def r17c(ck, prog):
 
 def run(ck, progs):
     describe(ck)
+    ck.rule("R17d", "uniqueness check and row-matching order compare names with the same function over the same span")
     ck.rule("R17c", "files with a gap anywhere are recognised as alignments (gap total covers every sequence, = R04b) and the counting loop is not distributed over threads")
     for cfg, prog in progs.items():
         ck.attempt(r17a, ck, prog)
         ck.attempt(r17b, ck, prog)
         ck.attempt(r17c, ck, prog)
+        ck.attempt(r17d, ck, prog)
     return ("CFG dominance of both sort calls over the pairing loop, argument pairing and loop ranges of the compare_pair "
             "call, field read set of the row-matching comparator; classification of compare_pair's counters by the row "
             "parameters their loops scan, and reaching definitions of numerator and denominator of the stored score.")
